@@ -128,11 +128,11 @@ pub fn verdicts_11_in<B: Block, I: Copy, O: Copy, F: Fn(ReadStream<I>) -> (B, Re
             _ => false,
         };
         assert!(ok, "input ended and drained, but the block neither reports EOF nor waits on the ended input");
-        witness!("probe done");
+        witness!("OPTIONAL: probe done (upstream gone)");
         std::mem::forget((b, rx, out, tx, input, next));
         return;
     }
-    witness!("probe done");
+    witness!("OPTIONAL: probe done (upstream alive)");
     std::mem::forget((r, tx, input));
 }
 
@@ -278,11 +278,11 @@ pub fn sinks(kind: u8, cap: usize, feeds: &[usize], gone: bool) {
             _ => false,
         };
         assert!(ok, "input ended, but the sink neither reports EOF nor waits on the ended input");
-        witness!("probe done");
+        witness!("OPTIONAL: probe done (upstream gone)");
         std::mem::forget((ns, vs, input));
         return;
     }
-    witness!("probe done");
+    witness!("OPTIONAL: probe done (upstream alive)");
     std::mem::forget((ns, vs, tx, input));
 }
 
@@ -312,4 +312,38 @@ pub fn au_decode_data(l: usize, cap_in: usize, cap_out: usize, sched: &[(usize, 
     let input = sym_vec::<u8>(l + cap_in + 1);
     let mk = |src: ReadStream<u8>| rustradio::au::verif_access::decoder_in_data_state(src, 8000);
     verdicts_11_in(&mk, input, l, cap_in, cap_out, sched, gone, 4);
+}
+
+/// VecToStream: a packet that does not fit the free output space must make the block wait on
+/// its *output* (the input already holds what it needs).
+pub fn vec_to_stream(l1: usize, l2: usize, cap: usize, drains: &[usize]) {
+    use rustradio::stream::{NCWriteStream, new_nocopy_stream};
+    set_cap(cap);
+    let (tx, nrx): (NCWriteStream<Vec<u8>>, _) = new_nocopy_stream();
+    tx.push(sym_vec::<u8>(l1), &[]);
+    tx.push(sym_vec::<u8>(l2), &[]);
+    let id_in = id_of(&tx);
+    let (mut b, rx) = VecToStream::<u8>::new(nrx);
+    let id_out = id_of(&rx);
+    let mut out = Collected::new();
+    for d in drains {
+        drain(&rx, *d, &mut out);
+        let queued = tx.verif_len();
+        let free = cap - buffered_r(&rx);
+        let a0 = activity();
+        let v = work_once(&mut b);
+        assert!(v != Verdict::Err);
+        assert!(rx.verif_refcount() == 2, "work() returned while still holding a window on its output stream");
+        if let Verdict::WaitStream(id, need) = v {
+            assert!(id == id_in || id == id_out, "waits on a stream that is not its own");
+            if id == id_in {
+                assert!(queued < need, "waits for input although the requested packets are already queued (the output is what is short)");
+            } else {
+                assert!(free < need, "waits for output space that is already free");
+            }
+            assert!(activity() == a0);
+        }
+    }
+    witness!("probe done");
+    std::mem::forget((b, rx, tx, out));
 }
